@@ -300,5 +300,21 @@ func extractQueryStub(f *Facts) {
 	}
 	sort.Strings(wrapSites)
 	f.Lists["queryStubWrapSites"] = wrapSites
+	// in noBatchHandler the wrap must come before the authentication (fix 3beb404)
+	f.Nats["noBatchWrapBeforeAuth"] = 0
+	if fd := f.FuncDecl("core/cc_core.go", "Chaincode", "noBatchHandler"); fd != nil {
+		wrapAt, authAt := -1, -1
+		for i, st := range fd.Body.List {
+			if wrapAt < 0 && containsCall(st, "newQueryStub") {
+				wrapAt = i
+			}
+			if authAt < 0 && containsCall(st, "validateAndExtractInvocationContext") {
+				authAt = i
+			}
+		}
+		if wrapAt >= 0 && authAt >= 0 && wrapAt < authAt {
+			f.Nats["noBatchWrapBeforeAuth"] = 1
+		}
+	}
 	_ = strings.Join
 }
